@@ -268,9 +268,12 @@ Fixpoint join_fields (d : Z) (fs : list (list Z)) : list Z :=
   | f :: rest => f ++ d :: join_fields d rest
   end.
 
-(* the fields with 0-based index in [b, e) *)
-Definition select_range (fs : list (list Z)) (r : range) : list (list Z) :=
-  firstn (Z.to_nat (snd r - fst r)) (skipn (Z.to_nat (fst r)) fs).
+(* the fields with 0-based index in [b, e) of a field list whose first element has
+   index off; e = kInfiniteEnd selects everything from b on *)
+Definition select_from (fs : list (list Z)) (off : Z) (r : range) : list (list Z) :=
+  let rest := skipn (Z.to_nat (fst r - off)) fs in
+  if snd r =? kInfiniteEnd then rest else firstn (Z.to_nat (snd r - fst r)) rest.
+Definition select_range (fs : list (list Z)) (r : range) : list (list Z) := select_from fs 0 r.
 Definition select (fs : list (list Z)) (rs : list range) : list (list (list Z)) :=
   map (select_range fs) rs.
 
@@ -296,3 +299,20 @@ Fixpoint canonical_from (lo : Z) (rs : list range) : Prop :=
   | (b, e) :: rest => lo <= b /\ b < e /\ e <= kInfiniteEnd /\ canonical_from (e + 1) rest
   end.
 Definition canonical (rs : list range) : Prop := canonical_from 0 rs.
+
+(* ------------------------------------------------ specification: the cut LIST grammar
+     LIST  ::= range (',' range)*
+     range ::= N | N '-' M | N '-' | '-' M | '-'       N, M decimal, 1 <= N <= M < kInfiniteEnd
+   and the half-open 0-based range each form denotes *)
+Definition dec_value (ds : list Z) : Z := fold_left (fun a c => a * 10 + (c - 48)) ds 0.
+Definition is_number (ds : list Z) (n : Z) : Prop :=
+  ds <> [] /\ forallb is_digit ds = true /\ dec_value ds = n /\ 1 <= n < kInfiniteEnd.
+Inductive range_item : list Z -> range -> Prop :=
+| RI_single ds n : is_number ds n -> range_item ds (n - 1, n)
+| RI_closed ds1 n ds2 m : is_number ds1 n -> is_number ds2 m -> n <= m -> range_item (ds1 ++ dash :: ds2) (n - 1, m)
+| RI_from ds n : is_number ds n -> range_item (ds ++ [dash]) (n - 1, kInfiniteEnd)
+| RI_to ds m : is_number ds m -> range_item (dash :: ds) (0, m)
+| RI_all : range_item [dash] (0, kInfiniteEnd).
+Inductive field_list : list Z -> list range -> Prop :=
+| FL_one s r : range_item s r -> field_list s [r]
+| FL_cons s r rest rs : range_item s r -> field_list rest rs -> field_list (s ++ comma :: rest) (r :: rs).
